@@ -1,0 +1,30 @@
+//go:build verif
+
+package blockfetch
+
+// Contracts for /verif (contract-based deductive verification). Comment-only.
+
+// C23: a single-block request returns only a block whose hash equals the requested point's hash, or
+// an error. The block arrives over an internal channel from the message handler, i.e. it is whatever
+// the server chose to send: the contract quantifies over every value received.
+//@ func (c *Client) GetBlock(point) (block, err)
+//@   props C23
+//@   attr safe off
+//@   ensures asked: err == nil ==> block != nil && seq(block.Hash()) == seq(point.Hash)
+// A block's hash is a deterministic function of the block value (assumed, listed in evidence).
+//@ pureiface github.com/blinklabs-io/gouroboros/ledger.Block.Hash
+
+// C23: what the handler of a Block message hands on is the block it decoded from that very message:
+// in single-block mode the value sent to GetBlock's channel, and in range mode the arguments of the
+// block callbacks, come from this message's wrapped block (type and bytes), decoded without error.
+//@ func (c *Client) handleBlock(msgGeneric) (err)
+//@   props C23
+//@   attr trackcalls on
+//@   attr safe off
+//@   requires typed: c != nil && dyn(msgGeneric) == type(*MsgBlock)
+//@   let m = unbox(msgGeneric, type(*MsgBlock))
+//@   callback send:blockChan requires decoded: called(NewBlockFromCbor) && callres(NewBlockFromCbor, 1) == nil && arg0 == callres(NewBlockFromCbor, 0)
+//@   callback send:blockChan requires thismsg: called(Decode) && callarg(Decode, 0) == old(m.WrappedBlock) && callres(Decode, 1) == nil
+//@   callback BlockFunc requires decoded: called(NewBlockFromCbor) && callres(NewBlockFromCbor, 1) == nil && arg2 == callres(NewBlockFromCbor, 0)
+//@   callback BlockFunc requires thismsg: called(Decode) && callarg(Decode, 0) == old(m.WrappedBlock) && callres(Decode, 1) == nil
+//@   callback BlockRawFunc requires thismsg: called(Decode) && callarg(Decode, 0) == old(m.WrappedBlock) && callres(Decode, 1) == nil
